@@ -12,6 +12,7 @@ package simrt
 import (
 	"runtime"
 	"sync"
+	"sync/atomic"
 	"unsafe"
 )
 
@@ -714,6 +715,12 @@ func runTask(id int32, body func()) {
 	body()
 }
 
+var foreignLive atomic.Int64
+
+// ForeignLive is the number of goroutines started by library code outside a
+// simulated run that are still alive.
+func ForeignLive() int64 { return foreignLive.Load() }
+
 var escaped any
 
 //go:norace
@@ -733,7 +740,14 @@ func Escaped() any { return escaped }
 // Go replaces the `go` statement in instrumented library code.
 func Go(f func()) {
 	if !Active() {
-		go f()
+		// Outside a simulated run (pool construction, reference tables, the
+		// fidelity gate) goroutines are real; they must be gone before a run
+		// starts, because a goroutine that is not a task cannot take turns.
+		foreignLive.Add(1)
+		go func() {
+			defer foreignLive.Add(-1)
+			f()
+		}()
 		return
 	}
 	id := spawn(false)
